@@ -700,11 +700,10 @@ func isNilConst(v ssa.Value) bool {
 // ifaceEq models == on two interface values (Go spec: panics if the dynamic
 // types are identical and not comparable).
 func (vc *FuncVC) ifaceEq(st *State, in ssa.Instruction, x, y V) string {
-	w := vc.w
+	_ = vc.w
 	bothNonNil := and(not(eq(x.T, "nilI")), not(eq(y.T, "nilI")))
 	sameT := eq(app("typ", x.T), app("typ", y.T))
 	vc.nopanic(st, "iface-eq", in, not(and(bothNonNil, sameT, not(app("comparableT", app("typ", x.T))))))
-	w.declare("exactEqT", "(declare-fun exactEqT (Type) Bool)")
 	e := st.fresh("ifeq", SBool)
 	// nil cases
 	st.assume(implies(eq(x.T, "nilI"), eq(e, eq(y.T, "nilI"))))
@@ -736,13 +735,17 @@ func (vc *FuncVC) convValue(st *State, x V, from, to types.Type) V {
 	fs, ts := w.sortOf(from), w.sortOf(to)
 	if fs == ts && (fs == SInt) {
 		fb, tb := basicName(from), basicName(to)
-		if fb == tb {
-			return V{x.T, ts, to}
+		if fb == tb || intSubrange(from, to) {
+			return V{x.T, ts, to} // value-preserving conversion
 		}
 		name := "conv_" + fb + "_" + tb
-		w.declare(name, fmt.Sprintf("(declare-fun %s (Int) Int)\n(assert (forall ((x Int)) (! (and %s (=> %s (= (%s x) x))) :pattern ((%s x)))))",
-			name, intRange(to, "("+name+" x)"), intRange(to, "x"), name, name))
-		return V{app(name, x.T), SInt, to}
+		w.declare(name, fmt.Sprintf("(declare-fun %s (Int) Int)", name))
+		r := app(name, x.T)
+		if st != nil && !strings.Contains(x.T, "q_") {
+			st.assume(intRange(to, r))
+			st.assume(implies(intRange(to, x.T), eq(r, x.T)))
+		}
+		return V{r, SInt, to}
 	}
 	if (fs == SInt || fs == SFloat) && (ts == SInt || ts == SFloat) {
 		fb, tb := basicName(from), basicName(to)
@@ -750,12 +753,12 @@ func (vc *FuncVC) convValue(st *State, x V, from, to types.Type) V {
 			return V{x.T, ts, to}
 		}
 		name := "conv_" + fb + "_" + tb
-		extra := ""
-		if ts == SInt {
-			extra = fmt.Sprintf("\n(assert (forall ((x %s)) (! %s :pattern ((%s x)))))", fs, intRange(to, "("+name+" x)"), name)
+		w.declare(name, fmt.Sprintf("(declare-fun %s (%s) %s)", name, fs, ts))
+		r := app(name, x.T)
+		if ts == SInt && st != nil && !strings.Contains(x.T, "q_") {
+			st.assume(intRange(to, r))
 		}
-		w.declare(name, fmt.Sprintf("(declare-fun %s (%s) %s)%s", name, fs, ts, extra))
-		return V{app(name, x.T), ts, to}
+		return V{r, ts, to}
 	}
 	if fs == SStr && ts == SStr {
 		return V{x.T, ts, to}
@@ -976,6 +979,11 @@ func (vc *FuncVC) rangeNext(st *State, fr *Frame, in *ssa.Next) []*State {
 	st.assume(not(sel(visited.T, k)))
 	nv := st.fresh("visited", visited.S)
 	st.assume(eq(nv, sto(visited.T, k, "true")))
+	vc.declCard(it.KS)
+	cf := "card_" + sortName(it.KS)
+	st.assume(eq(app(cf, nv), app("+", app(cf, visited.T), "1")))
+	st.assume(app(">=", app(cf, visited.T), "0"))
+	st.assume(eq(app(cf, w.zero(visited.S)), "0"))
 	st.ghost[it.Visited] = V{nv, visited.S, nil}
 	val := sel(sel(st.heapGet(vn, vso), it.Map.T), k)
 	fr.env[in] = Tuple{V{"true", SBool, nil}, V{k, it.KS, it.MT.Key()}, V{val, it.VS, it.MT.Elem()}}
@@ -1059,4 +1067,46 @@ func (vc *FuncVC) fnID(f *ssa.Function) int {
 		}
 	}
 	return 0
+}
+
+// intSubrange: every value of integer type a is a value of integer type b.
+func intSubrange(a, b types.Type) bool {
+	ba, ok1 := a.Underlying().(*types.Basic)
+	bb, ok2 := b.Underlying().(*types.Basic)
+	if !ok1 || !ok2 {
+		return false
+	}
+	bits := func(k types.BasicKind) (int, bool) { // width, signed
+		switch k {
+		case types.Int8:
+			return 8, true
+		case types.Int16:
+			return 16, true
+		case types.Int32:
+			return 32, true
+		case types.Int, types.Int64:
+			return 64, true
+		case types.Uint8:
+			return 8, false
+		case types.Uint16:
+			return 16, false
+		case types.Uint32:
+			return 32, false
+		case types.Uint, types.Uint64, types.Uintptr:
+			return 64, false
+		}
+		return 0, false
+	}
+	wa, sa := bits(ba.Kind())
+	wb, sb := bits(bb.Kind())
+	if wa == 0 || wb == 0 {
+		return false
+	}
+	switch {
+	case sa == sb:
+		return wa <= wb
+	case !sa && sb:
+		return wa < wb
+	}
+	return false
 }
